@@ -241,3 +241,23 @@ def run(repo: Repo, rep: Report) -> None:
     fn = ev.func("evalProject")
     ok = any(isinstance(c, ast.Call) and isinstance(c.func, ast.Attribute) and c.func.attr == "project" and c.args and norm(c.args[0]).endswith(".PV") for c in ast.walk(fn))
     rep.ob("C08.f-distinct-project", ev, "evalProject", "row.project(project.PV)", ok, "" if ok else "projection no longer keeps exactly the PV variables", node=fn)
+
+    # ------------------------------------------------------------------ (g)
+    rep.rule("C08.g-accumulated-value-by-identity",
+             "in the accumulators, whether a running value / evaluated term is `not yet set` is decided with `is None`; the truthiness of an "
+             "accumulated or evaluated term (Literal(0), Literal(''), Literal(false) are falsy) is never consulted", floor=2)
+    from vlib import truthy as _tr
+    for cfull in sorted(accs):
+        cname = cfull.rsplit(".", 1)[1]
+        for mname, f in ag.methods(cname).items():
+            for n in own_nodes(f):
+                if isinstance(n, ast.Compare) and isinstance(n.ops[0], (ast.Is, ast.IsNot)) and isinstance(n.comparators[0], ast.Constant) and n.comparators[0].value is None \
+                        and isinstance(n.left, ast.Attribute) and isinstance(n.left.value, ast.Name) and n.left.value.id == "self":
+                    rep.ob("C08.g-accumulated-value-by-identity", ag, "%s.%s" % (cname, mname), n, True, "by identity", node=n)
+            evaluated = {norm(a.targets[0]) for a in own_nodes(f) if isinstance(a, ast.Assign) and isinstance(a.value, ast.Call) and norm(a.value.func) in ("_eval", "self.eval_row")}
+            for e, owner, kind in _tr.bool_contexts(f):
+                txt = norm(e)
+                is_state = isinstance(e, ast.Attribute) and isinstance(e.value, ast.Name) and e.value.id == "self" and e.attr in ("value", "sum", "counter", "result")
+                if (is_state and e.attr == "value") or txt in evaluated:
+                    rep.ob("C08.g-accumulated-value-by-identity", ag, "%s.%s" % (cname, mname), "%s [in %s: %s]" % (txt, kind, norm(getattr(owner, "test", owner))[:60]), False,
+                           "%s is a term (or None): a falsy literal is treated as `not set`, so e.g. a running MIN/MAX of 0 is overwritten without comparison" % txt, node=e)
